@@ -695,7 +695,9 @@ func TestHarness(t *testing.T) {
 							l = "0 touch"
 						}
 					}
-					if rng.Chance(1, 4) && !strings.Contains(l, " drain- ") && !strings.Contains(l, " wcancel ") {
+					// one hold at a time: with several suspended calls the order in which they are let in when
+					// the hold ends is the Go scheduler's choice (the monitor-only histories do nest holds)
+					if !r.w.clk.holding() && rng.Chance(1, 3) && !strings.Contains(l, " drain- ") && !strings.Contains(l, " wcancel ") {
 						if strings.Contains(l, " sync ") && rng.Chance(1, 3) {
 							l += " hold=2" // this call itself is overtaken between its clock read and the lock
 						} else {
